@@ -1,6 +1,8 @@
 use insim_core::{
     binrw::{self, binrw},
-    string::{binrw_parse_codepage_string_until_eof, binrw_write_codepage_string},
+    string::{
+        binrw_parse_codepage_string_until_eof, binrw_write_codepage_string_nul_terminated,
+    },
 };
 
 use super::SoundType;
@@ -25,7 +27,7 @@ pub struct Mtc {
     pub plid: PlayerId,
 
     /// Message
-    #[bw(write_with = binrw_write_codepage_string::<128, _>, args(false, 4))]
+    #[bw(write_with = binrw_write_codepage_string_nul_terminated::<128, _>, args(4))]
     #[br(parse_with = binrw_parse_codepage_string_until_eof)]
     pub text: String,
 }
